@@ -127,13 +127,37 @@ def work_bet_auto(arg):
         return out
     out['nt'] += 1
     mn, mx = int(o.value[6]), int(o.value[7])
-    ok_last = mx in (first_dec, first_dec + 1)
+    ok_last = mx == first_dec + 1          # the reported end index is the first point after the maximum of n(1-p) (exclusive end)
     ok_first = mn == int(numpy.searchsorted(p, 0.1 * p[mx]))
     if not ok_last or not ok_first:
         out['viol'].append(core.make_violation({'check': 'automatic-window', 'method': 'BET', 'side': 'end' if not ok_last else 'start'},
                                                f'BET automatic window {(mn, mx)}: n(1-p) stops increasing at index {first_dec}; start must be the first point >= 0.1 p[end]',
                                                {'n_m': nm, 'C': C, 'points': npts}, [first_dec, first_dec + 1], [mn, mx]))
     return out
+
+
+def check_bet_auto_family(ctx):
+    """Automatic window on every regular grid of 20..100 points for low-capacity Langmuir-type data: the first decrease of n(1-p) can be
+    arbitrarily small (two points almost symmetric around the maximum) and still ends the window there."""
+    from pygaps.characterisation.area_bet import area_BET_raw
+    ev = nt = 0
+    for nm, K in ((1e-4, 100.0), (3e-5, 40.0), (2e-3, 400.0)):
+        for npts in range(20, 101):
+            p = numpy.linspace(0.005, 0.9, npts)
+            n = nm * ctx.scale * K * p / (1 + K * p)
+            roq = n * (1 - p)
+            fd = next((i for i in range(len(roq) - 1) if roq[i] > roq[i + 1]), None)
+            o = core.call(area_BET_raw, p, n, 0.162, None)
+            ev += 1
+            if fd is None or not o.ok:
+                continue
+            nt += 1
+            mn, mx = int(o.value[6]), int(o.value[7])
+            if mx != fd + 1 or mn != int(numpy.searchsorted(p, 0.1 * p[mx])):
+                ctx.violate(core.make_violation({'check': 'automatic-window', 'method': 'BET', 'side': 'end' if mx != fd + 1 else 'start', 'data': 'Langmuir family'},
+                                                f'BET automatic window {(mn, mx)} on a {npts}-point grid (Langmuir n_m={nm * ctx.scale:g} mol/g, K={K}): n(1-p) first decreases after index {fd} '
+                                                f'(by {roq[fd] - roq[fd + 1]:.3g}), expected end {fd + 1}', {'points': npts, 'n_m': nm, 'K': K}, fd + 1, mx))
+    ctx.add('bet_automatic_window_family', ev, nt)
 
 
 def work_langmuir(arg):
@@ -239,7 +263,40 @@ def work_tplot(arg):
             if errs[0] > 1e-7 or errs[2] > 1e-7 or errs[1] > 1e-6 or errs[3] > 1e-6:
                 v('recovery', f'limits {lim}: {dict((k, r[k]) for k in ("slope", "intercept", "area", "adsorbed_volume"))} (generator slope {slope}, intercept {intercept}, '
                               f'area {slope * M / rho}, volume {intercept * M / rho / 1000})', [slope, intercept], [r['slope'], r['intercept']])
+    if len(lims) > 2:
+        e2, n2 = _tplot_orders(slope, intercept, tm, p, lims[2], rho, M, v)
+        out['ev'] += e2
+        out['nt'] += n2
     return out
+
+
+def _tplot_orders(slope, intercept, tm, p, lim, rho, M, v):
+    """Points handed over in another order (a desorption run in instrument order, adsorption followed by desorption, shuffled):
+    the fitted section is still exactly the set of points strictly inside the limits."""
+    from pygaps.characterisation.t_plots import t_plot_raw
+    ev = nt = 0
+    perm = numpy.array([(7 * i + 3) % len(p) for i in range(len(p))]) if numpy.gcd(7, len(p)) == 1 else numpy.arange(len(p))[::-1]
+    orders = {'descending': numpy.arange(len(p))[::-1], 'up then down': numpy.concatenate([numpy.arange(len(p)), numpy.arange(len(p))[::-1][1:]]), 'shuffled': perm}
+    for oname, idx in orders.items():
+        pp = p[idx]
+        tt = tm(pp)
+        nn = slope * tt + intercept
+        o = core.call(t_plot_raw, nn.copy(), pp.copy(), tm, rho, M, lim)
+        ev += 1
+        inside = [i for i, x in enumerate(tt) if lim[0] < x < lim[1]]
+        if len(inside) < 3:
+            continue
+        nt += 1
+        if not o.ok or len(o.value[0]) != 1:
+            v('window', f'points in {oname} order, limits {lim}: {o.brief()[:120] if not o.ok else "%d results" % len(o.value[0])}', None, None, {'order': oname})
+            continue
+        r = o.value[0][0]
+        if sorted(int(i) for i in r['section']) != inside:
+            v('window', f'points in {oname} order, limits {lim}: fitted section {sorted(int(i) for i in r["section"])[:12]} but the points strictly inside are {inside[:12]}', inside,
+              list(r['section']), {'order': oname})
+        elif rel(r['slope'], slope) > 1e-7:
+            v('recovery', f'points in {oname} order, limits {lim}: slope {r["slope"]} (generator {slope})', slope, r['slope'], {'order': oname})
+    return ev, nt
 
 
 def work_alphas(arg):
@@ -482,6 +539,7 @@ def check_isotherm_entry(ctx):
 
 
 def run(ctx):
+    check_bet_auto_family(ctx)
     sc = ctx.scale
     gk = list(grids(sc))
     if ctx.quick:
